@@ -235,7 +235,9 @@ func (h *Handler) Handle(req, resp dhcpv6.DHCPv6) (dhcpv6.DHCPv6, bool) {
 			}
 
 			addPrefix(iapdResp, l)
-			newLeases = append(knownLeases, l)
+			// accumulate: several hints of one IA_PD may each get a new lease
+			knownLeases = append(knownLeases, l)
+			newLeases = knownLeases
 			log.Debugf("Allocated %s to %s (IAID: %x)", &allocated, client, iapd.IaId)
 		}
 
